@@ -9,7 +9,7 @@ Being a Lean function, `accept` is pure by construction; that the Python objects
 -/
 import BBProofs.Merges
 import BBProofs.Fl
-import BBProofs.GenEq
+import BBProofs.GenEq3
 
 namespace BB
 
@@ -157,5 +157,17 @@ theorem C10_code_slack_zero (expf : Rat → Rat) (hexp : Monotone expf) {tol : R
 /-! Non-vacuity: the summary of two identical 2-bit fingerprints is `SumOk`. -/
 example : SumOk ⟨[2, 2, 0], 2⟩ :=
   ⟨by decide, by norm_num, by decide +kernel, by decide +kernel⟩
+
+
+/-- code: the same with the side conditions spelled out — for ANY two summaries whose sums are bounded by their counts
+(what the tree holds), below the float-exact range, the translated criterion object computes the model's `accept` -/
+theorem C10_code_accept_consistent (expf : Rat → Rat) (c : Crit) (tol thr : Rat) (new old nom : Summary) (w w' w'' : W)
+    (hkn : ∀ k ∈ new.ls, k ≤ new.n) (hnn : new.n + 1 < 2 ^ 53) (hbn : (new.n + 1) * (new.ls.sum + new.ls.length) < 2 ^ 64)
+    (hko : ∀ k ∈ old.ls, k ≤ old.n) (hno : old.n + 1 < 2 ^ 53) (hbo : (old.n + 1) * (old.ls.sum + old.ls.length) < 2 ^ 64)
+    (hO : 1 ≤ old.n) :
+    codeAccept expf c.name tol thr new old nom w w' w''
+      = PV.bool (accept ⟨c, tol⟩ (tabOf expf) thr new old nom) :=
+  C10_code_accept expf c tol thr new old nom w w' w'' (sumOk_of_consistent new hkn hnn hbn)
+    (sumOk_of_consistent old hko hno hbo) hO
 
 end BB
